@@ -57,7 +57,7 @@ func (p *prop) Generate(rng *core.Rand, tier string, emit func(string)) {
 			k += rm.Intn(8)
 		}
 		t := mutate(rm, a.text, b.text, k)
-		emit("adapt " + core.Hex(t))
+		emit("madapt " + core.Hex(t))
 		if rm.Chance(1, 4) {
 			emit(fmt.Sprintf("perm %s %d", core.Hex(t), rm.U64()%1000000))
 		}
@@ -77,7 +77,7 @@ func (p *prop) Generate(rng *core.Rand, tier string, emit func(string)) {
 	// ---- arbitrary byte strings (totality)
 	rr := rng.Fork()
 	for i := 0; i < nRaw; i++ {
-		emit("adapt " + core.Hex(randomBytes(rr)))
+		emit("madapt " + core.Hex(randomBytes(rr)))
 	}
 	// ---- history independence
 	rl := rng.Fork()
@@ -161,12 +161,10 @@ func genSortCase(r *core.Rand, order []string) string {
 			}
 		default:
 			it.nsets = 1
-			switch r.Intn(6) {
+			switch r.Intn(5) {
 			case 0:
 			case 1:
 				it.paths = []string{r.Pick(sortPaths), r.Pick(sortPaths)}
-			case 2:
-				it.paths = []string{}
 			default:
 				it.paths = []string{r.Pick(sortPaths)}
 			}
